@@ -87,6 +87,9 @@ REFS = ['{Y}-{m:02d}-{d:02d}', '{Y}-{m}-{d}', '{Y}-{m:02d}-{d:02d} {H:02d}', '{Y
         '{Y}-{m:02d}-{d:02d} {H:02d}Z', '{Y}-{m:02d}-{d:02d} {H:02d}:{M:02d}:{S:02d}+0000',
         '{Y}-{m:02d}-{d:02d} {H:02d}:{M:02d}:{S:02d}-0500', '{Y}-{m:02d}-{d:02d} {H:02d}:{M:02d}:{S:02d}+05:30',
         '{Y}-{m:02d}-{d:02d} +0000', '{Y}-{m:02d}-{d:02d} {H}:{M}:{S}',
+        # zones west of Greenwich that are no whole hours (Newfoundland, the Marquesas) and half an hour west
+        '{Y}-{m:02d}-{d:02d} {H:02d}:{M:02d}:{S:02d}-0330', '{Y}-{m:02d}-{d:02d} {H:02d}:{M:02d}:{S:02d}-09:30',
+        '{Y}-{m:02d}-{d:02d} {H:02d}:{M:02d}:{S:02d}-0030',
         # spellings the library rejects (decoding must then raise, never return something else)
         '{Y}-{m:02d}-{d:02d}T{H:02d}:{M:02d}:{S:02d}', '{Y}-{m:02d}-{d:02d} {H:02d}:{M:02d}:{S:02d}.5',
         '{Y}-{m:02d}-{d:02d} {H:02d}:{M:02d}:{S:02d} +0000', '{Y}-{m:02d}-{d:02d} UTC']
@@ -227,6 +230,11 @@ def gen(rng, tier):
             out.append(dict(kind='atv', sdate=sd, stime=st, tstep=T, flags=fl if rng.random() < 0.5 else None, n=nt,
                             pre=rng.random() < 0.4))
     out += _irregular_cases(rng)
+    # on every run: a flag file thinned with a stride whose multiple of the step is no HHMMSS multiple of it (30 min x 4 is
+    # 2 h, not 012000): the closing edge of the thinned file and the flags a copy regenerates (oracle only)
+    for T, stride in ((3000, 4), (4500, 3), (2000, 6), (rng.choice([10000, 3000]), rng.choice([2, 24]))):
+        sd, st, _, _ = _flags(rng, 1)
+        out.append(dict(kind='strided', sdate=sd, stime=st - st % 10000, tstep=T, stride=stride, n=2 * stride + 1))
     return out
 
 
@@ -310,6 +318,15 @@ def impl(case):
                 ok = bool((tf == tf[:, :1, :]).all())
                 return dict(flags=[[int(a), int(b)] for a, b in tf[:, 0, :]], allvars=ok,
                             sdate=int(f.SDATE), stime=int(f.STIME), times=_times_out(f.getTimes()))
+            if k == 'strided':
+                f = _ioapi(case['n'])
+                f.SDATE, f.STIME, f.TSTEP = case['sdate'], case['stime'], case['tstep']
+                f.updatetflag(overwrite=True)
+                g = f.sliceDimensions(TSTEP=slice(None, None, case['stride']))
+                res = dict(times=_times_out(g.getTimes(bounds=True)), tstep=int(g.TSTEP))
+                res['copy_times'] = _times_out(g.copy().getTimes())
+                res['subset_times'] = _times_out(g.subsetVariables(['A']).getTimes())
+                return res
             if k == 'cf':
                 return _impl_cf(case)
             if k == 'atv':
@@ -384,6 +401,15 @@ def _impl_cf(case):
             res['idx'] = [int(i) for i in np.ma.filled(idx, -1)]
         except Exception as e:
             res['idx'] = 'err ' + type(e).__name__
+        fv = [Fraction(x) for x in case['vals']]
+        if n >= 3 and case['cal'] in (None, 'standard', 'gregorian', 'proleptic_gregorian') and \
+                all(fv[i + 1] - fv[i] == fv[1] - fv[0] for i in range(n - 1)) and fv[1] > fv[0]:
+            # the datetime front end of the same inverse: every time of a regular axis lies in its own (implied) cell, whatever
+            # the resolution of the labels (whole hours, whole days) is next to that of the half-step edges
+            try:
+                res['t2t'] = [int(i) for i in np.ma.filled(f.time2t(ts, ttype='bounds', index=True), -1)]
+            except Exception as e:
+                res['t2t'] = 'err ' + type(e).__name__
     return res
 
 
@@ -446,7 +472,7 @@ def to_line(case, res):
             vals = vals + [lib.show_rat(Fraction(vals[-1]) + step)]
             bnd = 'none'
         return 'c12 cf %s %s %s %s %s' % (case['unit'], cal, ','.join(map(str, ref)), lib.show_list(vals), bnd)
-    if k == 'tau':
+    if k in ('tau', 'strided'):
         return 'c12 attrs 1970001 0 10000 1 0'       # no model question (plain hour arithmetic): judged by the oracle
     if k == 'atv':
         if case['flags']:
@@ -458,7 +484,7 @@ def to_line(case, res):
 def agree(case, out, res):
     toks = out.split(' ')
     k = case['kind']
-    if k == 'tau':
+    if k in ('tau', 'strided'):
         return None
     if 'err' in res:
         if k == 'cf' and res.get('ref') is None:
@@ -535,6 +561,20 @@ def oracle(case, res):
         if k == 'tflag' and case['bounds'] and case.get('tstep') is None and len(case['flags']) < 2:
             return None     # no interval can be derived from a single flag
         return 'raised %s %s' % (res['err'], res.get('msg'))
+    if k == 'strided':
+        step = _tsecs(case['tstep']) * case['stride']
+        t0 = _true_instant(case['sdate'], case['stime'])
+        m = len(range(0, case['n'], case['stride']))
+        want = [t0 + i * step for i in range(m)]
+        got = [Fraction(x) for x in res['times']]
+        if got != want + [want[-1] + step]:
+            return 'every %d-th record of a file with TSTEP %06d: times and closing edge %s (TSTEP %s), the flags give %s' % (
+                case['stride'], case['tstep'], [str(x - t0) for x in got], res.get('tstep'), [str(x - t0) for x in want + [want[-1] + step]])
+        for key in ('copy_times', 'subset_times'):
+            if [Fraction(x) for x in res[key]] != want:
+                return 'every %d-th record of a file with TSTEP %06d, then %s: times %s, the retained flags encode %s' % (
+                    case['stride'], case['tstep'], key.split('_')[0], [str(Fraction(x) - t0) for x in res[key]], [str(x - t0) for x in want])
+        return None
     if k == 'tau':
         e85 = _inst(dt.datetime(1985, 1, 1))
         w0 = [e85 + Fraction(x) * 3600 for x in case['tau0']]
@@ -656,6 +696,8 @@ def _oracle_cf(case, res):
         if len(set(case['vals'])) == len(case['vals']) and len(case['vals']) >= 2 and \
                 res.get('idx') != list(range(len(case['vals']))):
             return 'time2idx(getTimes()) = %s' % (res.get('idx'),)
+        if 't2t' in res and res['t2t'] != list(range(len(case['vals']))):
+            return "time2t(getTimes(), ttype='bounds') = %s" % (res['t2t'],)
     return None
 
 
